@@ -232,13 +232,14 @@ def run(ctx):
         ctx.touched(d)
         n_fields = 0
         guarded = 0
-        for bb, t in d.calls():
-            if cname(t).endswith('DebugTuple::<\'a, \'b>::field') or cname(t).endswith('::field'):
-                n_fields += 1
-                for g in cmp_guards(d, bb):
-                    if g['op'] == 'Lt' and (g['r'].consts() - {0}) and not g['r'].params():
-                        guarded += 1
-                        break
+        for x in [d] + f.closures_of(d):      # (the per-variant rendering may live in a local closure)
+            for bb, t in x.calls():
+                if cname(t).endswith('DebugTuple::<\'a, \'b>::field') or cname(t).endswith('::field'):
+                    n_fields += 1
+                    for g in cmp_guards(x, bb):
+                        if g['op'] == 'Lt' and (g['r'].consts() - {0}) and not g['r'].params():
+                            guarded += 1
+                            break
         ctx.ob('RECGUARD-S', 'Debug for SchemaNode', n_fields > 0 and guarded == n_fields, short_loc(d.span),
                '%d of %d child renderings are under `depth < MAX_DEPTH`' % (guarded, n_fields))
 
